@@ -139,3 +139,30 @@ def asyncio_transport_of(adapter: Any) -> Any:
         if isinstance(value, asyncio.BaseTransport):
             return value
     raise LookupError(f"no asyncio transport found on {adapter!r}")
+
+
+def asyncio_transport_of_any(obj: Any, depth: int = 3) -> Any:
+    """Like asyncio_transport_of, looking through one or two levels of wrapped objects (datagram adapter -> endpoint -> transport)."""
+    import asyncio
+
+    seen: set[int] = set()
+    frontier = [obj]
+    for _ in range(depth):
+        nxt = []
+        for o in frontier:
+            if id(o) in seen:
+                continue
+            seen.add(id(o))
+            for name in dir(o):
+                if name.startswith("__") and name.endswith("__"):
+                    continue
+                try:
+                    value = getattr(o, name)
+                except Exception:  # noqa: BLE001
+                    continue
+                if isinstance(value, asyncio.BaseTransport):
+                    return value
+                if type(value).__module__.startswith("easynetwork") and not callable(value):
+                    nxt.append(value)
+        frontier = nxt
+    raise LookupError(f"no asyncio transport found in {obj!r}")
